@@ -40,6 +40,7 @@ import (
 	"github.com/coredhcp/coredhcp/handler"
 	"github.com/coredhcp/coredhcp/logger"
 	"github.com/coredhcp/coredhcp/plugins"
+	"github.com/coredhcp/coredhcp/verifhook"
 	"github.com/fsnotify/fsnotify"
 	"github.com/insomniacslk/dhcp/dhcpv4"
 	"github.com/insomniacslk/dhcp/dhcpv6"
@@ -242,14 +243,23 @@ func setupFile(v6 bool, args ...string) (handler.Handler6, handler.Handler4, err
 		// on the file
 		go func() {
 			for range watcher.Events {
+				if verifhook.On {
+					verifhook.Point("file.reload.begin", v6, filename)
+				}
 				err := loadFromFile(v6, filename)
 				if err != nil {
 					log.Warningf("failed to refresh from %s: %s", filename, err)
+					if verifhook.On {
+						verifhook.Point("file.reload.err", v6, filename)
+					}
 
 					continue
 				}
 
 				log.Infof("updated to %d leases from %s", len(StaticRecords), filename)
+				if verifhook.On {
+					verifhook.Point("file.reload.ok", v6, filename)
+				}
 			}
 		}()
 	}
@@ -275,6 +285,9 @@ func loadFromFile(v6 bool, filename string) error {
 
 	recLock.Lock()
 	defer recLock.Unlock()
+	if verifhook.On {
+		verifhook.Point("file.swap", &recLock, v6, filename, len(records))
+	}
 
 	StaticRecords = records
 
